@@ -280,6 +280,24 @@ def fast_path_applies(case):
         return True
     return "fp" in case.flags and case.entry[0] in ("min", "max") and not any(pending(r) for r in case.rows)
 
+def fast_path_core(case):
+    """the part of the optimisation fast path that is RIGHT on the current tree (0 failures in 40k generated cases) and is
+    therefore not covered by known finding `fast_path`: the objective is a float variable, every constraint is a non-strict
+    comparison of THAT variable with a constant posted at the props level, and the bounds are jointly feasible.  (What the
+    known finding does cover: constraints on other variables, strict / equality / FloatLin* / two-variable propagators,
+    infeasible bound sets answered Ok, integer objectives of mixed models.)"""
+    obj = int(case.entry[1][1:])
+    if case.decls[obj][0] != "F" or not case.rows: return False
+    lo, hi = case.decls[obj][1], case.decls[obj][2]
+    for r in case.rows:
+        t = r.text.split()
+        if r.route != "props" or t[1] not in ("leq", "geq") or not t[2].startswith("x") or int(t[2][1:]) != obj or not t[3].startswith("f:"):
+            return False
+        c = r.const / r.coeffs[obj]
+        if t[1] == "leq": hi = min(hi, c)
+        else: lo = max(lo, c)
+    return lo <= hi
+
 # ------------------------------------------------------------------------------------------------ generators
 NICE = [Fraction(k, 4) for k in range(-12, 13) if k != 0]
 def hq(q): return f2h(float(q))
